@@ -24,6 +24,7 @@ class QueryPlan:
         # if self.result_refs != other.result_refs:
         #     return False
         # return True
+        return True
 
     @property
     def last_step_index(self):
